@@ -899,3 +899,72 @@ Lemma not_injective_examples :
   (* (f) HMAC: a nil body and an empty body give the same MAC input *)
   mac_input dc (mk_req s_get [] s_a [] None) = mac_input dc (mk_req s_get [] s_a [] (Some [])).
 Proof. vm_compute. repeat split; reflexivity. Qed.
+
+(* ------------------------------------------------------------------ configuration of the HMAC key *)
+Lemma split_on_nonnil sep s : split_on sep s <> [].
+Proof.
+  induction s as [|c s IH]; simpl; [discriminate|].
+  destruct (N.eqb c sep); [discriminate|]. destruct (split_on sep s); [discriminate | discriminate].
+Qed.
+
+Lemma split_on_none sep s : ~ In sep s -> split_on sep s = [s].
+Proof.
+  induction s as [|c s IH]; intros H; simpl; [reflexivity|].
+  destruct (N.eqb c sep) eqn:E; [apply N.eqb_eq in E; subst; exfalso; apply H; left; reflexivity|].
+  rewrite IH by (intros X; apply H; right; exact X). reflexivity.
+Qed.
+
+Lemma split_on_app sep a s : ~ In sep a -> split_on sep (a ++ sep :: s) = a :: split_on sep s.
+Proof.
+  induction a as [|c a IH]; intros H; simpl.
+  - rewrite N.eqb_refl. reflexivity.
+  - destruct (N.eqb c sep) eqn:E; [apply N.eqb_eq in E; subst; exfalso; apply H; left; reflexivity|].
+    rewrite IH by (intros X; apply H; right; exact X). reflexivity.
+Qed.
+
+(* The shared key is the secret exactly as written, for every byte string without ':' — no case
+   folding, no trimming — and the algorithm must be one of the accepted names verbatim. *)
+Theorem generate_hmac_key algs alg secret :
+  ~ In 58 alg -> ~ In 58 secret ->
+  generate_hmac algs (alg ++ 58 :: secret) = if mem_str alg algs then HmacOn secret else HmacConfigError.
+Proof.
+  intros Ha Hs. unfold generate_hmac. rewrite split_on_app by exact Ha. rewrite split_on_none by exact Hs. reflexivity.
+Qed.
+
+Lemma lower_upper_byte c : lower_byte (upper_byte c) = lower_byte c.
+Proof.
+  unfold lower_byte, upper_byte.
+  destruct ((97 <=? c) && (c <=? 122)) eqn:E.
+  - apply andb_true_iff in E as [E1 E2]. apply N.leb_le in E1, E2.
+    assert (H1 : (65 <=? c - 32) = true) by (apply N.leb_le; lia).
+    assert (H2 : (c - 32 <=? 90) = true) by (apply N.leb_le; lia).
+    rewrite H1, H2. simpl.
+    assert (H3 : (c <=? 90) = false) by (apply N.leb_gt; lia).
+    rewrite H3, andb_false_r. lia.
+  - reflexivity.
+Qed.
+
+Lemma lower_upper_ascii s : lower_ascii (upper_ascii s) = lower_ascii s.
+Proof. unfold lower_ascii, upper_ascii. rewrite map_map. apply map_ext. exact lower_upper_byte. Qed.
+
+Lemma lower_ascii_app a b : lower_ascii (a ++ b) = lower_ascii a ++ lower_ascii b.
+Proof. apply map_app. Qed.
+
+(* a deployer who follows the documentation (variable SSO_CONFIG_<SERVICE>_SIGNING_KEY, name in upper
+   case) gets the key — PROVIDED the cleaned service name has no upper-case letter *)
+Theorem hmac_config_found algs service spec :
+  lower_ascii (clean_ws service) = clean_ws service ->
+  hmac_of_config algs service [(upper_ascii (clean_ws service ++ signing_key_suffix), spec)] = generate_hmac algs spec.
+Proof.
+  intros H. unfold hmac_of_config, env_vars. simpl.
+  rewrite lower_upper_ascii, lower_ascii_app, H.
+  change (lower_ascii signing_key_suffix) with signing_key_suffix. rewrite str_eqb_refl. reflexivity.
+Qed.
+
+Definition s_mysvc : str := [77;121;83;118;99]. (* "MySvc" *)
+Definition s_sha256 : str := [115;104;97;50;53;54]. (* "sha256" *)
+(* ... and silently gets no HMAC at all otherwise (known finding C12-K3) *)
+Lemma hmac_config_case_witness :
+  hmac_of_config [s_sha256] s_mysvc [(upper_ascii (clean_ws s_mysvc ++ signing_key_suffix), s_sha256 ++ 58 :: s_x)] = HmacOff /\
+  generate_hmac [s_sha256] (s_sha256 ++ 58 :: s_x) = HmacOn s_x.
+Proof. split; vm_compute; reflexivity. Qed.
